@@ -108,7 +108,7 @@ func cmdVerify(args []string) {
 			}
 			total++
 			exp := "unsat"
-			if ob.Cover {
+			if ob.Cover || ob.Canary {
 				exp = "sat"
 			}
 			if ob.Result == exp || (ob.Cover && ob.Result == "inconclusive") {
@@ -120,7 +120,7 @@ func cmdVerify(args []string) {
 		fmt.Printf("%-8s %s: %d obligations, %d failed\n", map[bool]string{true: "OK", false: "FAIL"}[bad == 0], s.Func, len(s.Obligs), bad)
 		for _, ob := range s.Obligs {
 			exp := "unsat"
-			if ob.Cover {
+			if ob.Cover || ob.Canary {
 				exp = "sat"
 			}
 			if *verbose || (ob.Result != exp && !(ob.Cover && ob.Result == "inconclusive")) {
@@ -146,7 +146,3 @@ func shortFile(f string) string {
 	return strings.TrimPrefix(f, repoDir()+"/")
 }
 
-func cmdCheck(args []string) int {
-	fmt.Fprintln(os.Stderr, "check: not implemented yet")
-	return 2
-}
